@@ -25,6 +25,9 @@
 //	                     pieces of <= 512 bytes and after <pos> bytes fails with kind ueof|net|custom (error in a call of its
 //	                     own) or ueof+|net+|custom+ (error returned together with the last piece); eof+ = no failure, the
 //	                     last piece comes with io.EOF in the same call
+//	W | Ws               the request is handed to the logger as martian.Proxy.handle presents it to modifiers:
+//	                     URL.Scheme = http (Ws: https, a secure session), URL.Host filled from Host when empty;
+//	                     the re-parsed snapshot gets the same treatment before it is compared
 //	C<n>                 run n variants of the case (body seeds +1..+n) concurrently; fwd=0 unless each equals its sequential run
 //	K<n>                 chunk size used on the wire (default: one chunk)
 //	T<hexkey>:<hexval>   trailer field sent; D<hexkey> trailer declared only; U: do not declare sent trailers
@@ -89,6 +92,7 @@ type spec struct {
 	conc       int
 	srcKind    string
 	srcPos     int
+	presented  string // "", "http", "https"
 }
 
 func genBody(n int, seed uint64, enc string) []byte {
@@ -196,6 +200,10 @@ func parseSpec(in []string) *spec {
 			s.noHost = true
 		case t == "U":
 			s.undeclared = true
+		case t == "W":
+			s.presented = "http"
+		case t == "Ws":
+			s.presented = "https"
 		case t[0] == 'R':
 			b, err := hx.UnHex(t[1:])
 			if err != nil {
@@ -454,6 +462,14 @@ func (s *spec) parse(raw []byte) (*message, error) {
 		r, err := http.ReadRequest(br)
 		if err != nil {
 			return nil, err
+		}
+		if s.presented != "" {
+			// what (*martian.Proxy).handle does to every request, CONNECT included,
+			// before the request modifiers run (proxy.go)
+			r.URL.Scheme = s.presented
+			if r.URL.Host == "" {
+				r.URL.Host = r.Host
+			}
 		}
 		return &message{req: r}, nil
 	}
@@ -1090,6 +1106,14 @@ func runOne(in []string) (out []string) {
 	refLine := firstLine(uw)
 	if s.isReq {
 		refLine = firstLine(raw)
+		if s.presented != "" && (strings.HasPrefix(s.path, "/") || strings.Contains(s.path, "://")) {
+			// origin-form and absolute-form requests are presented with an absolute
+			// URL whose scheme the proxy decides (https inside a secure session); the
+			// snapshot shows that absolute-form of the same target.  The authority
+			// form (CONNECT) and the asterisk form keep the line the client sent.
+			u := *tw[1].req.URL
+			refLine = []byte(fmt.Sprintf("%s %s HTTP/%d.%d", tw[1].req.Method, u.String(), tw[1].req.ProtoMajor, tw[1].req.ProtoMinor))
+		}
 	}
 	if r1.text != nil && rec > 0 {
 		t := *r1.text
@@ -1330,6 +1354,9 @@ func main() {
 			if r.Chance(1, 6) {
 				in = append(in, "O"+hx.HexS(hosts[r.Intn(len(hosts))]))
 			}
+			if r.Chance(1, 3) {
+				in = append(in, []string{"W", "Ws"}[r.Intn(2)])
+			}
 		} else {
 			in = append(in, "S"+strconv.Itoa(statuses[r.Intn(len(statuses))]))
 			if r.Chance(1, 3) {
@@ -1438,11 +1465,26 @@ func main() {
 						in = append(in, hkv("Content-Type", "text/plain"), "Fcl", "Bx6869")
 					}
 					emit("stl", in)
+					if host != "NH" {
+						emit("stl", append(append([]string{}, in...), "W"))
+						emit("stl", append(append([]string{}, in...), "Ws"))
+					}
 				}
 			}
 		}
-		// CONNECT: authority-form
-		emit("stl", []string{"REQ", "lg=" + lg, "skip=0", "MCONNECT", "P" + hx.HexS("example.com:443"), "O" + hx.HexS("example.com:443")})
+		// CONNECT: authority-form, bare and as the proxy presents it
+		for _, w := range []string{"", "W", "Ws"} {
+			in := []string{"REQ", "lg=" + lg, "skip=0", "MCONNECT", "P" + hx.HexS("example.com:443"), "O" + hx.HexS("example.com:443")}
+			if w != "" {
+				in = append(in, w)
+			}
+			emit("stl", in)
+			in2 := []string{"REQ", "lg=" + lg, "skip=0", "MCONNECT", "P" + hx.HexS("[::1]:8443"), "O" + hx.HexS("[::1]:8443"), "V10"}
+			if w != "" {
+				in2 = append(in2, w)
+			}
+			emit("stl", in2)
+		}
 	}
 
 	// 2c. header section: ordering, duplicates, non-canonical keys, padded values, Host/TE/CL overlay
